@@ -542,6 +542,13 @@ Definition canRecomputeImmediately (s : state) (parent child : nid) : bool :=
   let cn := nd s child in
   if isAlways (nkind cn) || requiresHeapOrdering (nkind cn)
      || (height (nd s parent) <=? scopeHeight s (scope cn)) then false
+  (* a chain of direct recomputes runs ahead of the heap: the bind that created the child may
+     still be queued below; nothing queued at or below its height establishes that it is not *)
+  else if negb (scopeHeight s (scope cn) =? unset)
+          && match Heap.minHeight (heap s) with
+             | None => false
+             | Some m => m <=? scopeHeight s (scope cn)
+             end then false
   else if bool_decide (length (parents cn) = 1%nat) then true
   else match Heap.minHeight (heap s) with
        | None => true
